@@ -26,7 +26,7 @@ CHECKS = {
 
 CHECKS.update({
  "C02": ("TLC: Tree+Macro+Catalog pipeline (Catalog.tla) computes verdict and catalog skeleton for every document of a block-template model; each document replayed on the real build in several layouts; projected JSON compared with the skeleton",
-         "The whole build (tree, MACRO/PASTE expansion, collect*, add*, compile, validate) is specified as pure TLA+ operators; for every document of JSIGHT + up to 3 distinct blocks out of 41 templates (quick: about 60 000 documents; thorough: the same with the dependency prelude placed before / after / not at all, about 190 000) TLC computes accept + skeleton (sections in document order, ids, names, annotations, descriptions, parameters, schema root/notation/used types/enums, path variables, tag<->interaction lists) or error class + line; the real catalog JSON, projected by the harness, must equal it in the canonical and in seeded random layouts.",
+         "The whole build (tree, MACRO/PASTE expansion, collect*, add*, compile, validate) is specified as pure TLA+ operators; for every document of JSIGHT + up to 2 (quick: about 7 500 documents) / 3 (thorough: about 400 000) distinct blocks out of 51 templates, each with the dependency prelude (tags, type, enum, macro) placed before, after or not at all TLC computes accept + skeleton (sections in document order, ids, names, annotations, descriptions, parameters, schema root/notation/used types/enums, path variables, tag<->interaction lists) or error class + line; the real catalog JSON, projected by the harness, must equal it in the canonical and in seeded random layouts.",
          "Trusts: jsight-schema-core for schema content below the root; the projection (harness/cmd/vh/proj.go) fails loudly when the JSON lacks the JDoc Exchange shape; TLC.",
          "DESIGN.md 5/C02"),
  "C05": ("TLC: CrossRefsClosed invariant on every accepted catalog of the document model; the same invariants evaluated on the real JSON; real corpus catalogs logged and judged by Trace_C05.tla",
